@@ -97,6 +97,21 @@ SPECS = [
          params="(now last periodDays : Int) (tankHigh : Bool)",
          atoms={"datetime.now()": ("int", "now"), "self.__backwash_last": ("int", "last"), "self.__backwash_period": ("int", "periodDays"),
                 "self.tank_is_high()": ("bool", "tankHigh")}),
+    dict(lean="ecoNormalPoll", file="controller/filtration.py", cls="Filtration", method="do_repeat_eco_normal",
+         params="(due dayEnded elapsedOn tankLow inEco : Bool) (tankDur : Int)",
+         atoms={"datetime.now()": ("int", "now"), "self.__start_backwash()": ("bool", "due"), "self.__eco_mode.update(now)": ("bool", "dayEnded"),
+                "self.__eco_mode.elapsed_on()": ("bool", "elapsedOn"), "self.tank_is_low()": ("bool", "tankLow"), "self.__eco_mode.tank_duration": ("int", "tankDur"),
+                "self.is_eco(allow_substates=True)": ("bool", "inEco")},
+         effects={r"self\.__stir_mode\.update\(now\)": "stir update"}),
+    dict(lean="ecoWaitingPoll", file="controller/filtration.py", cls="Filtration", method="do_repeat_eco_waiting",
+         params="(due dayEnded elapsedOff inEco : Bool)",
+         atoms={"datetime.now()": ("int", "now"), "self.__start_backwash()": ("bool", "due"), "self.__eco_mode.update(now, 0)": ("bool", "dayEnded"),
+                "self.__eco_mode.elapsed_off()": ("bool", "elapsedOff"), "self.is_eco(allow_substates=True)": ("bool", "inEco")},
+         effects={r"self\.__stir_mode\.update\(now\)": "stir update"}),
+    dict(lean="ecoTankPoll", file="controller/filtration.py", cls="Filtration", method="do_repeat_eco_tank",
+         params="(dayEnded elapsedOn inEco : Bool)",
+         atoms={"self.__eco_mode.update(datetime.now())": ("bool", "dayEnded"), "self.__eco_mode.elapsed_on()": ("bool", "elapsedOn"),
+                "self.is_eco(allow_substates=True)": ("bool", "inEco")}),
     dict(lean="tankForceEmpty", file="controller/tank.py", cls="Tank", method="force_empty", params="(previous value halted : Bool)",
          atoms={"self.__force_empty": ("bool", "previous"), "value": ("bool", "value"), "self.is_halt()": ("bool", "halted")}),
     dict(lean="tankIsLow", file="controller/filtration.py", cls="Filtration", method="tank_is_low", returns=True, params="(isHalt isLow isFill : Bool)",
@@ -134,7 +149,8 @@ _COMMON = {"__temperature": ("param", "temperature"), "__devices": ("param", "de
            "__machine": ("init_call", "PoupoolModel")}
 ROLES = {
     "Tank": {**_COMMON, "__force_empty": ("setter", "force_empty"), "__get_tank_height": ("method_containing", "get_sensor('tank')")},
-    "Filtration": {**_COMMON, "__cover_position_eco": ("setter", "cover_position_eco"), "__backwash_period": ("setter", "backwash_period"),
+    "Filtration": {**_COMMON, "__eco_mode": ("init_call", "EcoMode"), "__stir_mode": ("init_call", "StirMode"),
+                   "__start_backwash": ("method_containing", "tank_is_high()"), "__reload_eco": ("method_containing", "reload.defer()"), "__cover_position_eco": ("setter", "cover_position_eco"), "__backwash_period": ("setter", "backwash_period"),
                    "__backwash_last": ("setter", "backwash_last"), "__speed_standby": ("setter", "speed_standby")},
     "Swim": {**_COMMON, "__timer": ("setter", "timer"), "__speed": ("setter", "speed")},
     "Heating": {**_COMMON, "__enable": ("setter", "enable"), "__setpoint": ("setter", "setpoint"), "__min_temp": ("setter", "min_temp"),
